@@ -584,10 +584,7 @@ func (ex *Exec) execTypeAssert(st *State, in *ssa.TypeAssert) {
 // ------------------------------------------------------------------ maps
 
 func (ex *Exec) mapHeapNames(mt types.Type) (string, string) {
-	m := mt.Underlying().(*types.Map)
-	ks := ex.vc.sortOf(m.Key())
-	vs := ex.vc.sortOf(m.Elem())
-	n := sortSym(ks) + "_" + sortSym(vs)
+	n := mapTypeSym(mt)
 	return "MapDom_" + n, "MapVal_" + n
 }
 
@@ -754,4 +751,9 @@ func isNumLit(s string) bool {
 		}
 	}
 	return true
+}
+
+// mapTypeSym names the heap of a map type by its Go type (distinct Go map types never alias).
+func mapTypeSym(mt types.Type) string {
+	return sanitize(types.TypeString(mt.Underlying(), func(p *types.Package) string { return p.Name() }))
 }
